@@ -33,7 +33,7 @@ from ..core import Ctx
 from ..exc import ExcModel
 from ..loader import AnalysisError, FunctionInfo, walk_scope
 from ..resolve import last_attr
-from ..util import calls, dominated, enclosing, mini_eval, names_in, one, path_text, some
+from ..util import calls, dominated, enclosing, mini_eval, names_in, one, path_text
 from ._g4_helpers import Interp, Raised, bind_args, txt, require_count
 
 META = {
@@ -235,7 +235,7 @@ def _threading(ctx: Ctx) -> None:
                             par = cfg.parent.get(id(c))
                             while par is not None and not isinstance(par, (ast.IfExp, ast.If)):
                                 nxt = cfg.parent.get(id(par))
-                                prev, par = par, nxt
+                                par = nxt
                             if isinstance(par, ast.IfExp) and names_in(par.test) == {"url_validator"}:
                                 none_branch = par.body if mini_eval(par.test, {"url_validator": None}) else par.orelse
                                 cond_ok = any(x is c for x in ast.walk(none_branch))
